@@ -9,7 +9,7 @@
    (x, x' range over ALL functions nat -> nat -> Z, not only over matrices). *)
 From Coq Require Import List ZArith Lia Bool.
 Import ListNotations.
-Require Import CV.LpCert CV.Ssp CV.SspProofs CV.SspSafety.
+Require Import CV.LpCert CV.Ssp CV.SspProofs CV.SspSafety CV.SspF CV.SspTree CV.SspOpt CV.SspTotal.
 Local Open Scope Z_scope.
 
 (* [F] Soundness of the LP certificate checker, for all problems, plans and potentials: whenever the
@@ -74,6 +74,72 @@ Theorem c13_send_loop_fuel_suffices :
   forall pb s src,
   exists r, loopP (Z.to_pos (getZ (dems pb) src + 1)) (send_body pb src) (s, getZ (dems pb) src) = Done r.
 Proof. exact send_loop_never_out_of_fuel. Qed.
+
+(* ---- unbounded optimality and termination of the RAW algorithm (SspTree.v, SspOpt.v, SspTotal.v)
+
+   Invariants, all proved for every problem of C13's domain (no size bound), whatever the tie-breaking in the queues:
+   * Q2inv: every queue of a full sink is sorted by cost and every element (c, i) of queue (a,b) has c = movingCost(i,a,b);
+     with Qinv: top() of queue (a,b) is a source of MINIMUM moving cost among the sources allocated at a;
+   * Pot: sendingCost_ is a potential of the current allocation (>= 0, 0 on sinks with spare capacity, and
+     x[j][i] > 0 => d_j + c[j][i] <= d_k + c[k][i] for all k) -- dual feasibility + complementary slackness;
+   * Tight: sendingCost_[a] = movingCost(a, sinkParent_[a]) + sendingCost_[sinkParent_[a]];
+   * Acyc: the sinkParent_ chains end (no cycle), hence have at most nbSinks() hops.
+   updateTree (label-correcting loop): loop invariant Vinv (SspTree.v); its result satisfies Tinv, Tight, Acyc and is a
+   potential; augmenting along the tree keeps Pot for the OLD labels (walk2_step_P2, send3F), which are the lower bound
+   that makes the next updateTree correct and terminating. *)
+
+(* [F] MINIMUM COST of the raw algorithm, all inputs of C13's domain, no size bound, no checker: every plan the
+   line-by-line model of run() returns is feasible and costs no more than any feasible plan (plans = arbitrary
+   functions nat -> nat -> Z).  pb_optimal pb (plan_f x) unfolds to
+     pb_feasible pb (plan_f x) /\ forall x', pb_feasible pb x' -> plan_cost pb x <= pb_cost pb x'. *)
+Theorem c13_ssp_optimal :
+  forall pb x, check_pb pb = true -> (forall j i, 0 <= cost pb j i < INT_MAX) ->
+  total_demand pb <= total_capacity pb ->
+  ssp pb = Ok x -> pb_optimal pb (plan_f x).
+Proof. exact ssp_optimal. Qed.
+
+(* [F for what it states / P for "a plan IS returned by ssp"] on C13's domain the model ssp returns a plan, and
+   that plan is optimal -- unless the round budget  tree_fuel n = n^3 + 2n + 1  that Ssp.v gives the `while (true)`
+   loop of updateTree (cpp:483) runs out.  Compared with c13_ssp_safe_partial: the chain walks (fuel ids 519, 532)
+   provably end within nbSinks()+1 hops (Acyc), and the outcome is optimal, not only feasible.
+   _partial: the budget n^3+2n+1 is a modelling constant of Ssp.v that is NOT proved sufficient (and may not be: the
+   loop is a label-correcting search that extracts the marked sink of smallest label while moving costs can be
+   negative; no polynomial bound on the number of rounds of such a search is known).  What IS proved is that the loop
+   terminates: see c13_sspF_total. *)
+Theorem c13_ssp_returns_or_tree_fuel_partial :
+  forall pb, check_pb pb = true -> (forall j i, 0 <= cost pb j i < INT_MAX) ->
+  total_demand pb <= total_capacity pb ->
+  (exists x, ssp pb = Ok x /\ pb_optimal pb (plan_f x)) \/ ssp pb = Fail (EFuel 483).
+Proof. exact ssp_returns_or_tree_fuel. Qed.
+
+(* SspF.v = Ssp.v with the round budget of updateTree as a parameter tf (applied to nbSinks()); same definitions
+   otherwise; ssp is the instance tf = tree_fuel. *)
+Theorem c13_ssp_is_sspF : forall pb, sspF tree_fuel pb = ssp pb.
+Proof. exact ssp_is_sspF. Qed.
+
+(* [F] TOTAL CORRECTNESS of the raw algorithm (termination of every loop + feasibility + minimum cost) on C13's
+   domain, no size bound: with a budget of at least  big_fuel n = n * (2 * INT_MAX + 1) + 1  rounds for updateTree,
+   the model returns a plan and the plan is optimal.  Termination measure of the label-correcting loop:
+   2 * (sum of sendingCost_) + (number of marked sinks) decreases in every round; labels stay >= the previous
+   potential (>= 0).  This is the model-level statement that the unbounded C++ loop terminates (pseudo-polynomial
+   bound); the chain walks and the send loop keep the budgets of Ssp.v. *)
+Theorem c13_sspF_total :
+  forall pb tf, check_pb pb = true -> (forall j i, 0 <= cost pb j i < INT_MAX) ->
+  total_demand pb <= total_capacity pb ->
+  (big_fuel (nsnk pb) <= tf (nsnk pb))%positive ->
+  exists x, sspF tf pb = Ok x /\ pb_optimal pb (plan_f x).
+Proof. exact sspF_total. Qed.
+
+(* [F] for ANY budget: an optimal plan, or the budget of updateTree ran out and was smaller than big_fuel; nothing
+   else can happen (no assertion, no empty top(), no other loop out of fuel). *)
+Theorem c13_sspF_outcomes :
+  forall pb tf, check_pb pb = true -> (forall j i, 0 <= cost pb j i < INT_MAX) ->
+  total_demand pb <= total_capacity pb ->
+  match sspF tf pb with
+  | Ok x => pb_optimal pb (plan_f x)
+  | Fail e => e = EFuel 483%nat /\ ~ (big_fuel (nsnk pb) <= tf (nsnk pb))%positive
+  end.
+Proof. exact sspF_spec. Qed.
 
 (* [B] Bounded theorem: on each of the explicit finite domains below -- exactly ns sinks and nr
    sources, capacities 1..maxc, demands 1..maxd, costs 0..maxk, total demand <= total capacity --
@@ -186,6 +252,14 @@ Example c13_fuel_nonvacuous :
   exists s, loopP (Z.to_pos (getZ (dems ex_pb) 1 + 1)) (send_body ex_pb 1) (init_st ex_pb, getZ (dems ex_pb) 1) = Done (Ok s).
 Proof. eexists. vm_compute. reflexivity. Qed.
 
+(* the problem of c13_safe_nonvacuous is in the domain of the new theorems; with the proved budget the model
+   returns the same plan (sinks 0 and 1 end saturated, so updateTree ran); with a budget of one round it stops at
+   updateTree's loop and nowhere else *)
+Example c13_total_nonvacuous :
+  sspF big_fuel ex_pb = Ok ex_plan /\ sspF tree_fuel ex_pb = Ok ex_plan /\
+  sspF (fun _ => 1%positive) ex_pb = Fail (EFuel 483) /\ (big_fuel (nsnk ex_pb) = 12884901886)%positive.
+Proof. vm_compute. repeat split; reflexivity. Qed.
+
 Print Assumptions c13_certificate_sound.
 Print Assumptions c13_check_plan_sound.
 Print Assumptions c13_checked_solver_sound.
@@ -197,3 +271,8 @@ Print Assumptions c13_to_assignment_argmax.
 Print Assumptions c13_argmaxb_sound.
 Print Assumptions c13_increase_capacity_post.
 Print Assumptions c13_increase_capacity_keeps_check.
+Print Assumptions c13_ssp_optimal.
+Print Assumptions c13_ssp_returns_or_tree_fuel_partial.
+Print Assumptions c13_ssp_is_sspF.
+Print Assumptions c13_sspF_total.
+Print Assumptions c13_sspF_outcomes.
